@@ -1,6 +1,7 @@
 package main
 
 import (
+	"os"
 	"fmt"
 	"go/constant"
 	"go/token"
@@ -1862,14 +1863,36 @@ func (vc *VC) panicConds() []Term {
 	return out
 }
 
-// exemptReturn: the contract declares return k unreachable under its precondition (`unreachable "ret k"`).
-func (vc *VC) exemptReturn(k int) bool {
+// exemptReturn: the contract declares this return unreachable under its precondition: `unreachable "text"`
+// names it by a piece of the return statement's own source line (robust against line shifts).
+func (vc *VC) exemptReturn(pos token.Pos) bool {
+	line := vc.sourceLine(pos)
 	for _, c := range vc.decl.Clauses {
-		if c.Kind == "unreachable" && c.Label == fmt.Sprintf("ret %d", k) {
+		if c.Kind == "unreachable" && c.Label != "" && strings.Contains(line, c.Label) {
 			return true
 		}
 	}
 	return false
+}
+
+func (vc *VC) sourceLine(pos token.Pos) string {
+	if !pos.IsValid() {
+		return ""
+	}
+	p := vc.env.prog.Fset.Position(pos)
+	data, ok := vc.env.overlay[p.Filename]
+	if !ok {
+		var err error
+		data, err = os.ReadFile(p.Filename)
+		if err != nil {
+			return ""
+		}
+	}
+	lines := strings.Split(string(data), "\n")
+	if p.Line-1 < len(lines) {
+		return lines[p.Line-1]
+	}
+	return ""
 }
 
 func isFloat32(t types.Type) bool {
@@ -1956,7 +1979,7 @@ func (vc *VC) ret(x *ssa.Return) {
 	vc.retReach = append(vc.retReach, vc.curReach)
 	// vacuity: every return must be reachable under the precondition and everything assumed on the way (an
 	// unreachable return makes its postconditions hold vacuously); `unreachable "ret k"` in a contract exempts one
-	if !vc.exemptReturn(k) {
+	if !vc.exemptReturn(x.Pos()) {
 		vc.oblige("cover", fmt.Sprintf("return-%d-reachable", k), "false", x.Pos()).Expect = "fail"
 	}
 	for i, c := range vc.decl.Clauses {
